@@ -102,6 +102,15 @@ def run(chk, w):
                 chk.ok("C08-DERIVE", 1)
 
     # ---- FOL
+    # ---- ENUM: the position / on-track getters count and fill the same elements
+    from .. import enumrule
+    def _pos_getter(f_):
+        if not f_.relfile.startswith("src/highlevel/"):
+            return False
+        L_, D_ = enumrule.containers(P, f_)
+        return any("dcc_addresses" in (k or "") or "trains" in (k or "") for k in list(L_) + list(D_))
+    enumrule.run(chk, P, "C08-ENUM", _pos_getter, 2)
+
     chk.rule("C08-FOL", "every mutation of a segment's address list is followed by the derivation before the segment/train mutexes are released")
     nm = 0
     for f in P.repo_functions():
